@@ -30,6 +30,7 @@ import IrVerif.Lemmas.LayoutNames
 import IrVerif.Lemmas.LayoutSave
 import IrVerif.Lemmas.LayoutSt
 import IrVerif.Lemmas.LayoutSeq
+import IrVerif.Lemmas.LayoutStSave
 import IrVerif.Props.C04
 namespace IrVerif.Layout
 
@@ -1679,5 +1680,475 @@ theorem C07_sequence_save_load (V : List (List Nat)) (ops : List (SeqOp κ)) (b 
   exact ⟨hok.1, hok.2⟩
 
 end Seq
+
+end IrVerif.Layout
+
+/-! # Third deepening round: safetensors saves on initializer positions, the safetensors backend inside
+    call sequences, asynchronous exceptions in the restore loop, dtypes without table entry -/
+
+namespace IrVerif.Layout
+open IrVerif.TensorRepr (DType)
+
+/-- the header entry `_replace_tensors` finds under the name of saved tensor `j` is the entry written
+    for that tensor -/
+theorem stEntryFor_saved (saved : List StTensor) (mx : Option Nat)
+    (hd : (saved.map (·.name)).Nodup) (j : Nat) (hj : j < saved.length) :
+    ∃ cur, stEntryFor (stShardViewsD saved mx) saved[j].name =
+      some ⟨saved[j].name, (viewOfD saved[j]).sd, (viewOfD saved[j]).hshape, cur,
+        cur + saved[j].bytes.length⟩ := by
+  have hne : saved ≠ [] := by intro h; subst h; simp at hj
+  have hsh : stShardViewsD saved mx =
+      (shardSt (fun t : StTensor => t.bytes.length) mx saved).map shardViewsD := by
+    unfold stShardViewsD; rw [if_neg hne]
+  have hflat := (C07_shards_partition_st (fun t : StTensor => t.bytes.length) mx saved).1
+  generalize hS : shardSt (fun t : StTensor => t.bytes.length) mx saved = S at hsh hflat
+  -- every entry of the save comes from a saved tensor
+  have hfrom : ∀ e ∈ (stShardViewsD saved mx).flatMap stEntries,
+      ∃ t ∈ saved, ∃ c, e = ⟨t.name, (viewOfD t).sd, (viewOfD t).hshape, c, c + t.bytes.length⟩ := by
+    intro e he
+    rw [hsh, List.mem_flatMap] at he
+    obtain ⟨views, hviews, hev⟩ := he
+    obtain ⟨sh, hshS, rfl⟩ := List.mem_map.mp hviews
+    obtain ⟨v, hv, c, rfl⟩ := entriesFrom_mem_view 0 _ e hev
+    have hv' : v ∈ sh.map viewOfD := (sortViews_perm _).mem_iff.mp hv
+    obtain ⟨t, ht, rfl⟩ := List.mem_map.mp hv'
+    have htS : t ∈ saved := by rw [← hflat]; exact List.mem_flatten.mpr ⟨sh, hshS, ht⟩
+    exact ⟨t, htS, c, by simp [viewOfD]⟩
+  -- an entry with the name of tensor j exists
+  have hex : ∃ e ∈ (stShardViewsD saved mx).flatMap stEntries, e.name = saved[j].name := by
+    have hmem : saved[j] ∈ S.flatten := by rw [hflat]; exact List.getElem_mem hj
+    obtain ⟨sh, hshS, htsh⟩ := List.mem_flatten.mp hmem
+    have hv : viewOfD saved[j] ∈ shardViewsD sh :=
+      (sortViews_perm _).mem_iff.mpr (List.mem_map.mpr ⟨_, htsh, rfl⟩)
+    have hn : saved[j].name ∈ (stEntries (shardViewsD sh)).map (·.name) := by
+      rw [stEntries, entriesFrom_names]
+      exact List.mem_map.mpr ⟨_, hv, by simp [viewOfD]⟩
+    obtain ⟨e, he, hen⟩ := List.mem_map.mp hn
+    refine ⟨e, ?_, hen⟩
+    rw [hsh, List.mem_flatMap]
+    exact ⟨shardViewsD sh, List.mem_map.mpr ⟨sh, hshS, rfl⟩, he⟩
+  unfold stEntryFor
+  cases hfind : ((stShardViewsD saved mx).flatMap stEntries).find? (fun e => e.name = saved[j].name) with
+  | none =>
+    obtain ⟨e, he, hen⟩ := hex
+    have := List.find?_eq_none.mp hfind e he
+    simp [hen] at this
+  | some e =>
+    have hmem := List.mem_of_find?_eq_some hfind
+    have hname : e.name = saved[j].name := by simpa using List.find?_some hfind
+    obtain ⟨t, ht, c, rfl⟩ := hfrom e hmem
+    have htj : t = saved[j] :=
+      nodup_map_inj (·.name) saved hd t ht saved[j] (List.getElem_mem hj) hname
+    subst htj
+    exact ⟨c, rfl⟩
+
+/-- **C07_st_unload_values** (the safetensors counterpart of `C07_threshold` + `C07_roundtrip_value`,
+    on INITIALIZER POSITIONS of the main graph and of every subgraph).  For every declaration-ordered
+    initializer list whose names pass the up-front check of `save_safetensors` (pairwise different,
+    not `__metadata__`, among the values that hold a non-string tensor), every threshold, shard limit
+    and position `k`, after `_save_file` + `_replace_tensors` (what `ir.save` then serializes):
+    * a value with a non-string tensor of at least `size_threshold_bytes` bytes holds a NEW external
+      tensor whose record `(shard, shard count, offset, length)` names one of the files moved into
+      place, has the tensor's byte count, and reading `(offset, length)` from that file returns
+      exactly the bytes of tensor `k` (classification `splitSt`, sharding `shardSt`, the container
+      `stFile`, re-pointing by name `stReplace` composed);
+    * any other value whose non-string tensor was external holds an in-memory copy;
+    * every other value (no tensor, string tensor, small in-memory tensor) holds the same object. -/
+theorem C07_st_unload_values (vs : List StInit) (thr : Int) (mx : Option Nat)
+    (hnames : stNamesOk ((vs.filter stSnapshotB).map (·.name)) = true)
+    (k : Nat) (hk : k < vs.length) :
+    (unloadStV vs thr mx).length = vs.length ∧
+    (becomesExternalSt thr vs[k].init = true →
+      ∃ p img, (unloadStV vs thr mx)[k]? = some (.external p) ∧
+        (stSaveFiles vs thr mx)[p.shard]? = some img ∧
+        p.total = (stSaveFiles vs thr mx).length ∧ p.length = vs[k].bytes.length ∧
+        readAt img p.offset p.length = vs[k].bytes) ∧
+    (becomesExternalSt thr vs[k].init = false → stSnapshotB vs[k] = true →
+      vs[k].init.isExternal = true → (unloadStV vs thr mx)[k]? = some .memory) ∧
+    (becomesExternalSt thr vs[k].init = false →
+      (stSnapshotB vs[k] = false ∨ vs[k].init.isExternal = false) →
+      (unloadStV vs thr mx)[k]? = some .same) := by
+  have hnd : ((stSaved vs thr).map (·.name)).Nodup := by
+    have h1 : ((vs.filter stSnapshotB).map (·.name)).Nodup := by
+      simp only [stNamesOk, Bool.and_eq_true, decide_eq_true_eq] at hnames
+      exact hnames.1
+    exact (stSaved_names_sublist vs thr).nodup h1
+  have hk' : k < (vs.map (·.init)).length := by simpa using hk
+  have hIk : (vs.map (·.init))[k] = vs[k].init := by simp
+  let news := (stReplace ((stSaved vs thr).map (·.name))
+    (stAssignments (stShardViewsD (stSaved vs thr) mx))).map newConstOfRecord
+  have hnl : news.length = ((vs.map (·.init)).filter (extSt thr)).length := by
+    simp only [news, List.length_map, stReplace_length]
+    exact stSaved_length vs thr
+  have hgen := unload_generic_news (vs.map (·.init)) (extSt thr) (memSt thr)
+    (by intro v hv
+        simp only [extSt, Bool.and_eq_true, Bool.not_eq_true', decide_eq_false_iff_not] at hv
+        simp [memSt, hv.2])
+    news hnl k hk'
+  have hres : unloadStV vs thr mx = assignZip (assignZip (List.replicate (vs.map (·.init)).length NewConst.same)
+      (splitBy (extSt thr) (memSt thr) 0 (vs.map (·.init))).1 news)
+      (splitBy (extSt thr) (memSt thr) 0 (vs.map (·.init))).2
+      ((splitBy (extSt thr) (memSt thr) 0 (vs.map (·.init))).2.map fun _ => NewConst.memory) := by
+    simp only [unloadStV, news, List.length_map]
+    unfold splitSt; rw [splitStGo_eq]
+  rw [hres]
+  rw [hIk] at hgen
+  refine ⟨by simp [assignZip_length], ?_, ?_, ?_⟩
+  · intro hb
+    have he : extSt thr vs[k].init = true := by rw [extSt_eq]; exact hb
+    obtain ⟨hc, hr⟩ := hgen.1 he
+    generalize hcdef : ((vs.map (·.init)).take k).countP (extSt thr) = c at hc hr
+    have hsav := stSaved_index vs thr k hk he
+    rw [hcdef] at hsav
+    have hcl : c < (stSaved vs thr).length := by
+      by_cases h : c < (stSaved vs thr).length
+      · exact h
+      · rw [List.getElem?_eq_none (by omega)] at hsav; cases hsav
+    have hsc : (stSaved vs thr)[c] = vs[k].tensor := by
+      rw [List.getElem?_eq_getElem hcl] at hsav; exact Option.some.inj hsav
+    obtain ⟨p, img, hp, hf, htot, hlen, hread⟩ := C07_st_roundtrip (stSaved vs thr) mx hnd c hcl
+    rw [hsc] at hlen hread
+    refine ⟨p, img, ?_, by simpa [stSaveFiles] using hf, by simpa [stSaveFiles] using htot,
+      by simpa [StInit.tensor] using hlen, by simpa [StInit.tensor] using hread⟩
+    rw [hr]
+    have : news[c]? = some (NewConst.external p) := by
+      simp only [news, List.getElem?_map, hp, Option.map_some, newConstOfRecord]
+    rw [List.getElem?_eq_getElem hc] at this
+    exact this
+  · intro hb hs hx
+    have he : extSt thr vs[k].init = false := by rw [extSt_eq]; exact hb
+    apply hgen.2.1 he
+    simp only [stSnapshotB, Bool.and_eq_true, Bool.not_eq_true'] at hs
+    simp only [extSt, hs.1, hs.2, Bool.not_false, Bool.and_self, Bool.true_and, Bool.not_eq_false',
+      decide_eq_true_eq] at he
+    simp [memSt, hs.1, hs.2, he, hx]
+  · intro hb hs
+    have he : extSt thr vs[k].init = false := by rw [extSt_eq]; exact hb
+    apply hgen.2.2 he
+    rcases hs with hs | hs
+    · simp only [stSnapshotB, Bool.and_eq_false_iff, Bool.not_eq_false'] at hs
+      rcases hs with hs | hs <;> simp [memSt, hs]
+    · simp [memSt, hs]
+
+
+/-- a position above the threshold is one of the saved tensors -/
+theorem stSaved_position (vs : List StInit) (thr : Int) (k : Nat) (hk : k < vs.length)
+    (hb : becomesExternalSt thr vs[k].init = true) :
+    ∃ c, ∃ hc : c < (stSaved vs thr).length, (stSaved vs thr)[c] = vs[k].tensor := by
+  have he : extSt thr vs[k].init = true := by rw [extSt_eq]; exact hb
+  have hsav := stSaved_index vs thr k hk he
+  generalize ((vs.map (·.init)).take k).countP (extSt thr) = c at hsav
+  have hcl : c < (stSaved vs thr).length := by
+    by_cases h : c < (stSaved vs thr).length
+    · exact h
+    · rw [List.getElem?_eq_none (by omega)] at hsav; cases hsav
+  refine ⟨c, hcl, ?_⟩
+  rw [List.getElem?_eq_getElem hcl] at hsav; exact Option.some.inj hsav
+
+/-- **C07_st_roundtrip_values**: `save_safetensors` followed by `ir.load`, on initializer VALUES.
+    For every declaration-ordered initializer list (main graph and every subgraph) whose names pass
+    the up-front check and whose saved tensors all have a dtype of the save table (no `KeyError`:
+    `stSaveOk`), every threshold and shard limit: every position `k` that holds a tensor is, in the
+    loaded model, external EXACTLY when the tensor is not a string tensor and has at least
+    `size_threshold_bytes` bytes, and holds its original dtype, shape and bytes (for an external
+    position: dtype/shape as `_migrate_tensor_shape_dtype` restores them from the header, bytes as
+    read through the record `(file, offset, length)` from the file moved into place).
+    Composes `C07_st_unload_values` (classification, sharding, container, re-pointing by name) with
+    `C07_st_dtype_roundtrip`. -/
+theorem C07_st_roundtrip_values (vs : List StInit) (thr : Int) (mx : Option Nat)
+    (hnames : stNamesOk ((vs.filter stSnapshotB).map (·.name)) = true)
+    (hdt : stSaveOk vs thr = true)
+    (k : Nat) (hk : k < vs.length) (hc : vs[k].init.hasConst = true) :
+    stLoadedAt vs thr mx k =
+      some ⟨becomesExternalSt thr vs[k].init, vs[k].dtype, vs[k].shape, vs[k].bytes⟩ := by
+  have hU := C07_st_unload_values vs thr mx hnames k hk
+  have hget : vs.getD k default = vs[k] := by
+    simp [List.getD_eq_getElem?_getD, List.getElem?_eq_getElem hk]
+  unfold stLoadedAt
+  simp only [hget]
+  by_cases hb : becomesExternalSt thr vs[k].init = true
+  · obtain ⟨p, img, hp, hf, _, _, hread⟩ := hU.2.1 hb
+    obtain ⟨c, hcl, hsc⟩ := stSaved_position vs thr k hk hb
+    have hnd : ((stSaved vs thr).map (·.name)).Nodup := by
+      have h1 : ((vs.filter stSnapshotB).map (·.name)).Nodup := by
+        simp only [stNamesOk, Bool.and_eq_true, decide_eq_true_eq] at hnames
+        exact hnames.1
+      exact (stSaved_names_sublist vs thr).nodup h1
+    obtain ⟨cur, hent⟩ := stEntryFor_saved (stSaved vs thr) mx hnd c hcl
+    rw [hsc] at hent
+    have hsome : (stDtypeOf vs[k].tensor.dtype).isSome = true := by
+      have := List.all_eq_true.mp hdt (stSaved vs thr)[c] (List.getElem_mem hcl)
+      rw [hsc] at this; exact this
+    obtain ⟨sd, hsd⟩ := Option.isSome_iff_exists.mp hsome
+    have hview : (viewOfD vs[k].tensor) = ⟨vs[k].tensor.name, sd,
+        headerShape sd (storageShape vs[k].tensor), vs[k].tensor.bytes⟩ := by
+      simp [viewOfD, hsd]
+    rw [hview] at hent
+    have hds := C07_st_dtype_roundtrip vs[k].tensor sd hsd cur
+    have hname : vs[k].tensor.name = vs[k].name := rfl
+    rw [hname] at hent
+    rw [hp]
+    simp only [hent, Option.bind_some]
+    have hds' : reloadedDtypeShape vs[k].tensor
+        ⟨vs[k].name, sd, headerShape sd (storageShape vs[k].tensor), cur, cur + vs[k].tensor.bytes.length⟩
+        = some (vs[k].dtype, vs[k].shape) := hds
+    rw [hds']
+    simp only [Option.map_some, hb]
+    have himg : (stSaveFiles vs thr mx).getD p.shard [] = img := by
+      simp [List.getD_eq_getElem?_getD, hf]
+    rw [himg, hread]
+  · have hb' : becomesExternalSt thr vs[k].init = false := by simpa using hb
+    have hstate : (unloadStV vs thr mx)[k]? = some .memory ∨ (unloadStV vs thr mx)[k]? = some .same := by
+      by_cases h1 : stSnapshotB vs[k] = true ∧ vs[k].init.isExternal = true
+      · exact Or.inl (hU.2.2.1 hb' h1.1 h1.2)
+      · refine Or.inr (hU.2.2.2 hb' ?_)
+        by_cases h2 : stSnapshotB vs[k] = true
+        · right; simpa using fun h3 => h1 ⟨h2, h3⟩
+        · left; simpa using h2
+    rcases hstate with h | h <;> rw [h] <;> simp [hc, hb']
+
+
+-- a whole position-level save: float above the threshold, a small external uint8 tensor (loaded to memory), a
+-- string tensor (untouched), an INT4 tensor stored as bytes: records into the one file (header 112 bytes), and
+-- what the loaded model holds
+example :
+    let vs : List StInit := [⟨[0x62], ⟨4, false, true, false⟩, .float, [1], [1, 2, 3, 4]⟩,
+      ⟨[0x61], ⟨2, true, true, false⟩, .uint8, [2], [9, 9]⟩, ⟨[0x63], ⟨1, false, true, true⟩, .string, [1], []⟩,
+      ⟨[0x64], ⟨3, false, true, false⟩, .int4, [5], [7, 8, 9]⟩]
+    stNamesOk ((vs.filter stSnapshotB).map (·.name)) = true ∧ stSaveOk vs 3 = true ∧
+    unloadStV vs 3 none = [.external ⟨0, 1, 120, 4⟩, .memory, .same, .external ⟨0, 1, 124, 3⟩] ∧
+    (List.range 4).map (stLoadedAt vs 3 none) =
+      [some ⟨true, .float, [1], [1, 2, 3, 4]⟩, some ⟨false, .uint8, [2], [9, 9]⟩, some ⟨false, .string, [1], []⟩,
+       some ⟨true, .int4, [5], [7, 8, 9]⟩] := by
+  decide +kernel
+
+-- the name hypothesis is needed: with a duplicated name the first value above the threshold is not re-pointed
+-- and would be written inline
+example :
+    let vs : List StInit := [⟨[0x61], ⟨1, false, true, false⟩, .uint8, [1], [1]⟩,
+      ⟨[0x61], ⟨1, false, true, false⟩, .uint8, [1], [2]⟩]
+    stNamesOk ((vs.filter stSnapshotB).map (·.name)) = false ∧
+    stLoadedAt vs 0 none 0 = some ⟨false, .uint8, [1], [1]⟩ ∧ becomesExternalSt 0 vs[0].init = true := by
+  decide +kernel
+
+/-! ### the safetensors backend inside call sequences -/
+
+/-- **C07_stBackend_ok**: the safetensors backend (`save_safetensors`, any threshold and shard limit,
+    shards staged and moved into place after the last one was written) delivers what
+    `C07_sequence_preserves` asks of a backend, provided the initializer names pass the up-front
+    check of `save_safetensors` (pairwise different, not `__metadata__`): one reference per
+    initializer, and with the written files in place every reference reads its initializer's bytes
+    (from `C07_st_unload_values`).  The instance describes saves that get past the dtype table
+    (`stSaveOk`; with COMPLEX128 above the threshold the real save raises `KeyError` before any file
+    is moved into place, see `C07_st_keyerror_iff`). -/
+theorem C07_stBackend_ok (base : Nat) (thr : Int) (mx : Option Nat) (metas : List StMeta)
+    (hn : stNamesOk (metas.map (·.name)) = true) : (stBackend base thr mx metas).Ok := by
+  intro refs vals fs hl
+  have hvl := stVS_length metas refs vals hl
+  have hnames : stNamesOk (((stVS metas refs vals).filter stSnapshotB).map (·.name)) = true :=
+    stNamesOk_sublist _ _ (stVS_names_sublist metas refs vals) hn
+  have hcl : (unloadStV (stVS metas refs vals) thr mx).length = vals.length := by
+    have h0 : (unloadStV (stVS metas refs vals) thr mx).length = (stVS metas refs vals).length := by
+      simp [unloadStV, assignZip_length]
+    omega
+  refine ⟨by simp [stBackend, hcl], ?_⟩
+  intro k hk
+  have hkv : k < (stVS metas refs vals).length := by omega
+  have hkc : k < (unloadStV (stVS metas refs vals) thr mx).length := by omega
+  obtain ⟨v, hv, hvb, _⟩ := stVS_get metas refs vals hl k hk
+  have hvk : (stVS metas refs vals)[k] = v := by
+    rw [List.getElem?_eq_getElem hkv] at hv; exact Option.some.inj hv
+  have hU := C07_st_unload_values (stVS metas refs vals) thr mx hnames k hkv
+  rw [hvk] at hU
+  have hrk : (stBackend base thr mx metas refs vals).refs[k]? = some
+      (match (unloadStV (stVS metas refs vals) thr mx)[k] with
+        | .external p => Ref.ext (base, p.shard,
+            (stSaveFiles (stVS metas refs vals) thr mx).length) p.offset p.length
+        | _ => Ref.inline vals[k]) := by
+    simp only [stBackend]
+    rw [List.getElem?_eq_getElem (by simp [hcl]; omega), List.getElem_zipWith]
+    rfl
+  by_cases hb : becomesExternalSt thr v.init = true
+  · obtain ⟨p, img, hc, hf, _, _, hread⟩ := hU.2.1 hb
+    have hck : (unloadStV (stVS metas refs vals) thr mx)[k] = .external p := by
+      rw [List.getElem?_eq_getElem hkc] at hc; exact Option.some.inj hc
+    rw [hck] at hrk
+    refine ⟨_, hrk, by simp, ?_⟩
+    have := installFiles_zipIdx fs base (stSaveFiles (stVS metas refs vals) thr mx).length
+      (stSaveFiles (stVS metas refs vals) thr mx) 0 p.shard (Nat.zero_le _)
+    simp only [Nat.sub_zero, hf] at this
+    simp only [Ref.value, stBackend, keyedFiles]
+    rw [this]
+    simp [hread, hvb]
+  · have hb' : becomesExternalSt thr v.init = false := by simpa using hb
+    have hnot : (unloadStV (stVS metas refs vals) thr mx)[k] = .memory ∨
+        (unloadStV (stVS metas refs vals) thr mx)[k] = .same := by
+      by_cases h1 : stSnapshotB v = true ∧ v.init.isExternal = true
+      · left
+        have := hU.2.2.1 hb' h1.1 h1.2
+        rw [List.getElem?_eq_getElem hkc] at this; exact Option.some.inj this
+      · right
+        have := hU.2.2.2 hb' (by
+          by_cases h2 : stSnapshotB v = true
+          · right; simpa using fun h3 => h1 ⟨h2, h3⟩
+          · left; simpa using h2)
+        rw [List.getElem?_eq_getElem hkc] at this; exact Option.some.inj this
+    rcases hnot with h | h <;> rw [h] at hrk <;> exact ⟨_, hrk, by simp, by simp [Ref.value]⟩
+
+
+theorem OpSpec.toOp_ok (metas : List StMeta) (hn : stNamesOk (metas.map (·.name)) = true) (o : OpSpec) :
+    (o.toOp metas).BackendOk := by
+  cases o <;> simp only [OpSpec.toOp, SeqOp.BackendOk]
+  · exact C07_rawBackend_ok _ _ _ _ _
+  · exact C07_rawBackend_ok _ _ _ _ _
+  · exact C07_stBackend_ok _ _ _ _ hn
+
+/-- **C07_sequence_mixed**: `C07_sequence_preserves` with BOTH backend instances discharged.  For
+    any sequence of `ir.save(external_data=)`, `unload_from_model`, `ir.save_safetensors` (any
+    parameters, any destinations, in any mixture), `ir.load`, `load_to_model` and
+    `convert_tensors_from_external` calls that runs to the end on a model whose initializer names pass
+    the safetensors name check: every reference of the caller's model and of the saved proto is stale
+    or reads exactly the value of its initializer. -/
+theorem C07_sequence_mixed (metas : List StMeta) (hn : stNamesOk (metas.map (·.name)) = true)
+    (V : List (List Nat)) (specs : List OpSpec) (s0 s : SeqState FileKey) (h0 : SeqInv V s0)
+    (hrun : seqRun s0 (specs.map (OpSpec.toOp metas)) = some s) : SeqInv V s := by
+  refine C07_sequence_preserves V _ s0 s ?_ h0 hrun
+  intro op hop
+  obtain ⟨o, _, rfl⟩ := List.mem_map.mp hop
+  exact OpSpec.toOp_ok metas hn o
+
+/-- **C07_sequence_mixed_save_load**: whatever mixture of calls happened before, a save with EITHER
+    backend that runs to the end, followed by `ir.load`, yields a model in which no reference is stale
+    and every initializer reads its original value. -/
+theorem C07_sequence_mixed_save_load (metas : List StMeta) (hn : stNamesOk (metas.map (·.name)) = true)
+    (V : List (List Nat)) (specs : List OpSpec) (last : OpSpec) (hlast : last.isSave = true)
+    (s0 s : SeqState FileKey) (h0 : SeqInv V s0)
+    (hrun : seqRun s0 ((specs ++ [last, .load]).map (OpSpec.toOp metas)) = some s) :
+    s.mem.length = V.length ∧ ∀ k (hk : k < V.length), ∃ r, s.mem[k]? = some r ∧ r ≠ .stale ∧
+      r.value s.fs = some V[k] := by
+  have hops : ∀ op ∈ specs.map (OpSpec.toOp metas), op.BackendOk := by
+    intro op hop
+    obtain ⟨o, _, rfl⟩ := List.mem_map.mp hop
+    exact OpSpec.toOp_ok metas hn o
+  rw [List.map_append] at hrun
+  cases last with
+  | rawSave base thr mx al athr =>
+    exact C07_sequence_save_load V _ _ (C07_rawBackend_ok base thr mx al athr) s0 s hops h0 hrun
+  | stSave base thr mx =>
+    exact C07_sequence_save_load V _ _ (C07_stBackend_ok base thr mx metas hn) s0 s hops h0 hrun
+  | rawUnload => simp [OpSpec.isSave] at hlast
+  | load => simp [OpSpec.isSave] at hlast
+  | loadToModel => simp [OpSpec.isSave] at hlast
+  | convert k => simp [OpSpec.isSave] at hlast
+
+-- a mixed history on a concrete model: raw save, load, safetensors save with threshold 0 onto new files,
+-- load, raw save onto the FIRST data file again, load: every initializer reads its value at the end and the
+-- model loaded from the safetensors files is not stale (its files were not replaced)
+example :
+    let metas : List StMeta := [⟨[0x61], .uint8, [3]⟩, ⟨[0x62], .uint8, [1]⟩]
+    let s0 : SeqState FileKey := { fs := fun _ => none, mem := [.inline [1, 2, 3], .inline [4]], disk := none }
+    ((seqRun s0 ([OpSpec.rawSave 0 1 none none 0, .load, .stSave 1 0 none, .load,
+        .rawSave 0 0 none none 0].map (OpSpec.toOp metas))).map fun s => s.mem.map (Ref.value s.fs))
+      = some [some [1, 2, 3], some [4]] ∧
+    ((seqRun s0 ([OpSpec.rawSave 0 1 none none 0, .load, .stSave 1 0 none, .load].map (OpSpec.toOp metas))).map
+      fun s => s.mem.map Ref.isExt) = some [true, true] := by
+  decide +kernel
+
+/-! ### asynchronous exceptions inside the restore loop; dtypes without table entry -/
+
+/-- **C07_restore_async**: what the `finally` block does when an ASYNCHRONOUS exception is delivered
+    inside the restore loop after `n` assignments completed (every original tensor passing the setter's
+    check, i.e. always outside DEBUG mode).  For every plan (both backends), every point `stop` at which
+    the `try` block was left and every `n`: the `finally` is left by the exception iff
+    `n < snapshot.length`; exactly the first `n` remembered values hold their original tensor again;
+    every other value cell holds what it held when the `try` block was left (so a value the save had
+    re-pointed STAYS re-pointed: the clause "same tensor objects afterwards" cannot be kept by a Python
+    `finally` loop under asynchronous exceptions; outside the C07 statement, stated here exactly). -/
+theorem C07_restore_async (debug : Bool) (isProto : Nat → Bool) (st : Store) (plan : SavePlan)
+    (stop : Option Nat) (n : Nat)
+    (hok : ∀ v ∈ plan.snapshot, setterOk debug isProto (st v) = true) :
+    let r := saveRunAsync debug isProto st plan stop (some n)
+    r.2.2 = decide (n < plan.snapshot.length) ∧
+    (∀ v ∈ plan.snapshot.take n, r.2.1 v = st v) ∧
+    (∀ v, v ∉ plan.snapshot.take n → r.2.1 v = r.1 v) ∧
+    (plan.snapshot.length ≤ n → r = saveRunChecked debug isProto st plan stop) := by
+  intro r
+  have hloop : ∀ (mid : Store), restoreLoop debug isProto mid ((plan.snapshot.map fun v => (v, st v)).take n) =
+      (assignAll mid ((plan.snapshot.take n).map fun v => (v, st v)), false) := by
+    intro mid
+    rw [← List.map_take]
+    apply restoreLoop_ok
+    intro p hp
+    obtain ⟨v, hv, rfl⟩ := List.mem_map.mp hp
+    exact hok v (List.mem_of_mem_take hv)
+  refine ⟨?_, ?_, ?_, ?_⟩
+  · simp only [r, saveRunAsync, restoreLoopCut, hloop, Bool.false_or, List.length_map]
+  · intro v hv
+    simp only [r, saveRunAsync, restoreLoopCut, hloop]
+    exact assignAll_saved st _ _ v hv
+  · intro v hv
+    simp only [r, saveRunAsync, restoreLoopCut, hloop]
+    apply assignAll_not_mem
+    intro p hp
+    obtain ⟨w, hw, rfl⟩ := List.mem_map.mp hp
+    intro h; exact hv (h ▸ hw)
+  · intro hn
+    have htake : (plan.snapshot.map fun v => (v, st v)).take n = plan.snapshot.map fun v => (v, st v) :=
+      List.take_of_length_le (by simpa using hn)
+    have hdec : decide (n < (plan.snapshot.map fun v => (v, st v)).length) = false := by
+      simp; omega
+    simp only [r, saveRunAsync, saveRunChecked, restoreLoopCut, htake, hdec, Bool.or_false]
+    cases stop <;> rfl
+
+-- the asynchronous exception after 1 of 3 restores: value 0 is restored, values 1 and 2 stay re-pointed
+example :
+    let r := saveRunAsync false (fun _ => true) (fun v => some (v + 6))
+      (rawPlan [⟨300, false, true, false⟩, ⟨300, false, true, false⟩, ⟨300, false, true, false⟩] 0 100) none (some 1)
+    r.2.1 0 = some 6 ∧ r.2.1 1 = some 101 ∧ r.2.1 2 = some 102 ∧ r.2.2 = true := by decide
+
+/-- **C07_st_keyerror_iff**: `save_safetensors` gets past the dtype table exactly when no initializer
+    that is saved (non-string tensor of at least `size_threshold_bytes` bytes) has a dtype without table
+    entry — in practice COMPLEX128 (UNDEFINED is no tensor dtype, STRING tensors are skipped before).
+    Below the threshold a COMPLEX128 initializer stays in the proto and the save succeeds; at or above it
+    the save raises `KeyError` and the model says that NO file is written (`stFiles = none`: the shards
+    written so far are in the temporary directory that the `finally` removes). -/
+theorem C07_st_keyerror_iff (vs : List StInit) (thr : Int) (mx : Option Nat) :
+    (stSaveOk vs thr = true ↔
+      ∀ v ∈ vs, becomesExternalSt thr v.init = true →
+        v.dtype ≠ .undefined ∧ v.dtype ≠ .string ∧ v.dtype ≠ .complex128) ∧
+    (stSaveOk vs thr = false → stFiles (stSaved vs thr) mx = none) ∧
+    (stSaveOk vs thr = true → stFiles (stSaved vs thr) mx = some (stSaveFiles vs thr mx)) := by
+  refine ⟨?_, ?_, ?_⟩
+  · unfold stSaveOk dtypesOk
+    rw [stSaved_eq_filter, List.all_eq_true]
+    constructor
+    · intro h v hv hb
+      have := h v.tensor (List.mem_map.mpr ⟨v, List.mem_filter.mpr ⟨hv, by rw [extSt_eq]; exact hb⟩, rfl⟩)
+      have hne : stDtypeOf v.dtype ≠ none := by
+        intro e; simp [StInit.tensor, e] at this
+      rw [Ne, stDtypeOf_none_iff] at hne
+      exact ⟨fun e => hne (Or.inl e), fun e => hne (Or.inr (Or.inl e)), fun e => hne (Or.inr (Or.inr e))⟩
+    · intro h t ht
+      obtain ⟨v, hv, rfl⟩ := List.mem_map.mp ht
+      obtain ⟨hv1, hv2⟩ := List.mem_filter.mp hv
+      have := h v hv1 (by rw [← extSt_eq]; exact hv2)
+      have hne : stDtypeOf v.dtype ≠ none := by
+        rw [Ne, stDtypeOf_none_iff]
+        rintro (e | e | e)
+        · exact this.1 e
+        · exact this.2.1 e
+        · exact this.2.2 e
+      cases hd : stDtypeOf v.dtype with
+      | none => exact absurd hd hne
+      | some _ => simp [StInit.tensor, hd]
+  · intro h
+    simp only [stSaveOk] at h
+    simp [stFiles, stShardViews, h]
+  · intro h
+    simp only [stSaveOk] at h
+    simp [stFiles, stShardViews, h, stSaveFiles]
+
+example : stSaveOk [⟨[0x61], ⟨16, false, true, false⟩, .complex128, [1], List.replicate 16 0⟩] 17 = true ∧
+    stSaveOk [⟨[0x61], ⟨16, false, true, false⟩, .complex128, [1], List.replicate 16 0⟩] 16 = false := by decide
 
 end IrVerif.Layout
